@@ -43,6 +43,7 @@ type World struct {
 	infos   map[*ssa.Function]*fnInfo
 	zzPkg   *ssa.Package
 	rtErr   types.Type // zzverif.RuntimeError
+	rtypePtr types.Type // *reflect.rtype, the dynamic type of reflect.Type values
 	byPath  map[string]*ssa.Package
 	thorough bool
 }
